@@ -1599,14 +1599,16 @@ class Parameter(_ParameterBase):
             ref, deps, val, is_async = obj.param._resolve_ref(self, val)
 
             def update_link():
+                # (obj.param, not self.owner.param: the owner of a
+                # per_instance=False Parameter is the class)
                 if ref is not None:
-                    self.owner.param._update_ref(name, ref, is_async)
+                    obj.param._update_ref(name, ref, is_async)
                 elif (name in obj._param__private.refs and not syncing
                       and not obj.param._TRIGGER):
                     # a plain value ends the link for good, including the
                     # watchers kept on its sources (param.trigger re-assigns
                     # the current value: not an override)
-                    self.owner.param._update_ref(name, None)
+                    obj.param._update_ref(name, None)
 
             if is_async or val is Undefined:
                 update_link()
